@@ -1,0 +1,39 @@
+//go:build verif
+
+package strmap
+
+// Add-only observation hooks for the verification harness (/verif, property C07).
+// Compiled only with -tags verif; nothing here changes behaviour.
+
+// VerifCalcSlots exposes calcHashtableSlots; -1 when it panics ("too many items").
+func VerifCalcSlots(n int) (slots int) {
+	defer func() {
+		if r := recover(); r != nil {
+			slots = -1
+		}
+	}()
+	return int(calcHashtableSlots(n))
+}
+
+// VerifSlotCount is len(m.hashtable).
+func (m *StrMap[V]) VerifSlotCount() int { return len(m.hashtable) }
+
+// VerifMaxChain is the length of the longest run of items sharing one slot
+// (the worst-case number of key comparisons of a Get).
+func (m *StrMap[V]) VerifMaxChain() int {
+	best, run := 0, 0
+	for i := range m.items {
+		if i > 0 && m.items[i].slot == m.items[i-1].slot {
+			run++
+		} else {
+			run = 1
+		}
+		if run > best {
+			best = run
+		}
+	}
+	return best
+}
+
+// VerifStrMap exposes the inner StrMap of a Str2Str (nil when not yet created).
+func (sm *Str2Str) VerifStrMap() *StrMap[int] { return sm.strMap }
